@@ -220,7 +220,7 @@ func (e *Env) Coq() string {
 
 // Case wraps the message and everything that may refer to it: (b, fun B => rest).
 func (e *Env) Case(rest ...string) string {
-	return hv.Tuple(hv.Hex(e.B), "(fun B => "+hv.Tuple(rest...)+")")
+	return hv.Tuple(hv.Hex(e.B), "(fun B : bytes => "+hv.Tuple(rest...)+")")
 }
 
 // Obs is what the real code did: outcome code (0 ok, 1 error, 2 panic), consumed length, output
